@@ -113,6 +113,24 @@ func genOps(r *Rand, schemas []fSchema) []fOp {
 		}
 		ms := append([]string{}, methods...)
 		Shuffle(r, ms)
+		if len(pathParams) > 0 && r.Chance(1, 3) {
+			// several body-taking methods on one path whose only other parameter is the path's own: what one
+			// method is given must not depend on its siblings (same body schema twice out of three)
+			bodyMs := []string{"patch", "post", "put"}
+			Shuffle(r, bodyMs)
+			same := schemas[r.Intn(len(schemas))].Name
+			for m := 0; m < 2+r.Intn(2); m++ {
+				op := fOp{Method: bodyMs[m], Path: path, Resps: map[string]string{"200": ""}}
+				op.Params = append(op.Params, pathParams...)
+				ref := same
+				if r.Chance(1, 3) {
+					ref = schemas[r.Intn(len(schemas))].Name
+				}
+				op.Params = append(op.Params, fParam{Name: "body", In: "body", Ref: ref})
+				ops = append(ops, op)
+			}
+			continue
+		}
 		for m := 0; m < 1+r.Intn(3); m++ {
 			op := fOp{Method: ms[m], Path: path, Resps: map[string]string{}}
 			op.Params = append(op.Params, pathParams...)
@@ -447,20 +465,18 @@ func runC11(res *Result, tier string, rnd *Rand, replay string) {
 			}()
 			res.Count("format:" + format)
 			if ierr != "" {
-				cls := c12ValClass(ierr)
-				switch {
-				case strings.Contains(ierr, "not between 0 and 127"):
-					cls = "non-ascii-name"
-				case strings.Contains(ierr, "circular schema reference"):
-					cls = "circular-schema-reference"
-				}
+				cls := c11ErrClass(ierr)
 				res.Violate(Violation{Sig: "import-fails:" + format + ":" + cls, What: "import of a well-formed " + format + " document fails: " + firstLine(ierr), Input: in})
 				res.Eval(key, false)
 				continue
 			}
 			res.Traces++
 			res.Eval(key, true)
-			if again, e2 := c11Import(d, logger); e2 != "" || again != text {
+			if again, e2 := c11Import(d, logger); e2 != "" {
+				// the second import fails although the first succeeded: the failure depends on the run
+				// (e.g. the order in which a library walks a map); reported under the failure's own class
+				res.Violate(Violation{Sig: "import-fails:" + format + ":" + c11ErrClass(e2), What: "a second import of a well-formed " + format + " document fails although the first one succeeded: " + firstLine(e2), Input: in})
+			} else if again != text {
 				res.Violate(Violation{Sig: "second-import-differs:" + format, What: "importing the same document again gives different text", Input: in, Got: firstDiffLine(text, again)})
 			}
 			m, err := compileFiles(map[string]string{"main.sysl": text}, "main.sysl")
@@ -656,4 +672,14 @@ func c11Census(res *Result, in map[string]any, d *fDoc, m *sysl.Module, text str
 			}
 		}
 	}
+}
+
+func c11ErrClass(e string) string {
+	switch {
+	case strings.Contains(e, "not between 0 and 127"):
+		return "non-ascii-name"
+	case strings.Contains(e, "circular schema reference"):
+		return "circular-schema-reference"
+	}
+	return c12ValClass(e)
 }
